@@ -570,7 +570,25 @@ func (la *LockAnalysis) updateEntries() bool {
 						}
 					}
 					if callee := x.Call.StaticCallee(); callee != nil && la.inPkg[callee] && callee.Parent() == nil {
-						get(callee).bad = true
+						// a deferred helper (`defer pe.unlockAndGuard()`) starts, like a deferred
+						// closure, with the lock-set of the exits it runs at (in its own name space)
+						n := 0
+						m := argMap(callee, x)
+						for k, s := range la.deferAt {
+							if k.d == x {
+								ms := LockSet{}
+								for p, kk := range s {
+									if q := invPath(p, m); q != "" {
+										ms[q] = kk
+									}
+								}
+								add(callee, ms)
+								n++
+							}
+						}
+						if n == 0 {
+							get(callee).bad = true
+						}
 					}
 				case *ssa.Go:
 					if mc, ok := x.Call.Value.(*ssa.MakeClosure); ok {
